@@ -191,6 +191,21 @@ UNIT = {
            loop_specs={0: {'iter_name': 'itp', 'invariant': [('grid', 'self.content == old(self).content && cv_wf(*self) && layer < LAYER_COUNT'),
                                          ('points', 'forall |i: int| 0 <= i < itp.seq().len() ==> in_grid(*old(self), #[trigger] itp.seq()[i])'),
                                          ('inside', 'forall |i: int| 0 <= i < rectangles@.len() ==> rect_in_grid(*old(self), #[trigger] rectangles@[i])')]}}),
+        fn(CV, 'Canvas', 'plane', ret='r', loops=5, body_prefix=CHAR + '\n' + VLEN,
+           rewrites=[('R1', 4), ('RX', 'R11', r'let mut plane: Plane = Default::default\(\);', 'let mut plane: Plane = plane_default();', 1),
+                     # R27: a counted for loop whose body uses `continue` -> the same loop as a while, the counter advanced at the top of the body (Verus has no `continue` in for loops)
+                     ('RX', 'R27', r'for i in 0\.\.width \{', 'let mut i_: usize = 0;\n          while i_ < width {\n            let i = i_; i_ += 1;', 2),
+                     ('RX', 'R14', r'let mut cross_col = None;', 'let mut cross_col: Option<usize> = None;', 1),
+                     ('RX', 'R14', r'let mut cross_horz_col = None;', 'let mut cross_horz_col: Option<usize> = None;', 1),
+                     ('RX', 'R14', r'let mut row = 0;', 'let mut row: usize = 0;', 1), ('RX', 'R14', r'let mut col;', 'let mut col: usize;', 1), ('RX', 'R14', r'let mut width = 0;', 'let mut width: usize = 0;', 1)],
+           requires=[('wf', WF0)],
+           ensures=[('grid_kept', 'final(self).content == old(self).content')],
+           loop_specs={0: {'iter_name': 'ity', 'body_prefix': CHAR + '\n' + VLEN + '\nproof { assert(y == ity.seq()[ity.index@ as int]); assert(y < self.content@.len()); }', 'invariant': [('rows', 'ity.seq().len() == old(self).content@.len() && forall |j: int| 0 <= j < ity.seq().len() ==> #[trigger] ity.seq()[j] == j'), ('grid', 'self.content == old(self).content && cv_wf(*self)'), ('regions_inside', 'forall |i: int| 0 <= i < regions@.len() ==> rect_in_grid(*old(self), #[trigger] regions@[i])'), ('current_row_exists', 'plane.content@.len() == row + 1')]},
+                       1: {'body_prefix': CHAR + '\n' + VLEN, 'invariant': [('grid', 'self.content == old(self).content && cv_wf(*self)'), ('regions_inside', 'forall |i: int| 0 <= i < regions@.len() ==> rect_in_grid(*old(self), #[trigger] regions@[i])'), ('current_row_exists', 'plane.content@.len() == row + 1'), ('row_of_the_grid', 'y < self.content@.len()'), ('counter', 'i_ <= width')], 'decreases': 'width - i_'},
+                       2: {'body_prefix': CHAR + '\n' + VLEN, 'invariant': [('grid', 'self.content == old(self).content && cv_wf(*self)'), ('regions_inside', 'forall |i: int| 0 <= i < regions@.len() ==> rect_in_grid(*old(self), #[trigger] regions@[i])'), ('current_row_exists', 'plane.content@.len() == row + 1'), ('row_of_the_grid', 'y < self.content@.len()'), ('counter', 'i_ <= width')], 'decreases': 'width - i_'},
+                       3: {'iter_name': 'itx', 'body_prefix': CHAR + '\n' + VLEN + '\nproof { assert(x == itx.seq()[itx.index@ as int]); assert(x < self.content@[y as int]@.len()); assert(grid_w(self.content@) == self.content@[y as int]@.len()); }', 'invariant': [('columns', 'itx.seq().len() == old(self).content@[y as int]@.len() && forall |j: int| 0 <= j < itx.seq().len() ==> #[trigger] itx.seq()[j] == j'), ('grid', 'self.content == old(self).content && cv_wf(*self)'), ('regions_inside', 'forall |i: int| 0 <= i < regions@.len() ==> rect_in_grid(*old(self), #[trigger] regions@[i])'), ('current_row_exists', 'plane.content@.len() == row + 1'), ('row_of_the_grid', 'y < self.content@.len()'), ('cells_counted', 'col <= plane.content@[row as int]@.len()')]},
+                       4: {'body_prefix': CHAR + '\n' + VLEN, 'invariant': [('grid', 'self.content == old(self).content && cv_wf(*self)'), ('regions_inside', 'forall |i: int| 0 <= i < regions@.len() ==> rect_in_grid(*old(self), #[trigger] regions@[i])'), ('current_row_exists', 'plane.content@.len() == row + 1'), ('row_of_the_grid', 'y < self.content@.len() && x < self.content@[y as int]@.len()'), ('cells_counted', 'col <= plane.content@[row as int]@.len()'),
+                                                              ('the_rectangle', 'rect_in_grid(*old(self), rect)'), ('a_found_region_is_a_cell', 'found ==> col < plane.content@[row as int]@.len()')]}}),
         fn(CV, 'Canvas', 'copy_layer', loops=2,
            requires=[('grid', 'grid_rect(old(self).content@)'), ('layers', 'src < LAYER_COUNT && 1 <= dst < LAYER_COUNT')],
            ensures=[('text_layer_kept', PAINT)],
